@@ -38,7 +38,7 @@
    This file contains only statements, each closed by [exact], with Print Assumptions. *)
 From Coq Require Import String.
 From Coq Require Import NArith List.
-From LCP Require Import Gen.Repo_hash Alg.Words Alg.Sha256Model Alg.MD32Model Alg.HmacModel Alg.HashWipe Alg.HashRepo Alg.HashRepoProofs.
+From LCP Require Import Gen.Repo_hash Alg.Words Alg.Sha256Model Alg.MD32Model Alg.HmacModel Alg.HashWipe Alg.HashRepo Alg.HashWipeRepoProofs.
 
 Theorem C20_sha256_final_zeroes_ctx : forall c, c256_is_zero (snd (sha256_final c)) = true.
 Proof. exact repo_sha256_final_zeroes_ctx. Qed.
